@@ -69,6 +69,16 @@ CHECKS = {
         note='Trusted: Lean kernel (+propext, Classical.choice, Quot.sound), translator and harness, numba int32->int64 promotion as modelled; float rounding of the final scale multiply bounded, not modelled. '
              'Unclaimed observation (not reachable through the public constructor, which forces unpack_bits=False for light cones): _load_halo_lc_subsamples(unpack_bits=True) raises TypeError.',
         design='§7 C04'),
+    'C06': dict(
+        technique='Lean 4 proof (exact-rational model of _tsc_scatter/cic_serial/_wrap_inplace; deposited weight = periodic image sum of the documented kernel, independent of tie rounding; superposition) + differential correspondence of the compiled model driver with the compiled and py_func kernels, tsc_parallel(nthread=1) and get_field, exact on dyadic lattices in f32/f64 and toleranced on generic floats, plus an independent Fractions kernel oracle',
+        text='22 theorems: axis weights sum to 1 and are non-negative; axis_indices_inbounds_any_ix (for any g >= 1 and ANY integer ix >= 0 — whatever the float product rounded to — the three wrapped subscripts are (ix+d) mod g); '
+             'tsc/cic_axis_is_kernel and deposit_is_kernel(_2d) (the weight sent to each cell equals the periodic image sum of the documented TSC/CIC kernel, anisotropic grids, third axis 1); total_conserved, deposit_nonneg, '
+             'deposit_superposition, additive(_seq), perm_invariant, axis_roll_equivariant / roll_equivariant (whole-cell shifts with periodic wrap roll the grid, ties included), wrap_inplace_spec, scatter_no_fault. '
+             'They hold for every particle list, every g >= 1 per axis and any offset. The model is tied to /repo on every run by running _tsc_scatter (compiled and py_func), tsc_parallel(nthread=1), cic_serial and get_field '
+             'on dyadic lattices (all cell centres, half-cell edges, 0, Box, one box outside with wrap, offsets 0 and half a cell, weights, supplied grids, f32/f64, cubic/anisotropic/(g,g,1) shapes 2..9) where float arithmetic is exact and '
+             'model and implementation must agree bit for bit, plus a tolerance stream and a directed float-overshoot stream; an independent Fractions evaluation of the documented kernel and the conservation/additivity/permutation/roll relations decide violations.',
+        note='Trusted: Lean kernel (+3 std axioms), the harness; float rounding on non-dyadic inputs is bounded (64 eps of the deposited mass), not modelled; int16/int32 index widths out of scope; numba codegen.',
+        design='§7 C06'),
 }
 
 NOT_YET = {}
